@@ -180,10 +180,12 @@ def c12():
 def c13():
     if _q():
         plans = [dict(universe=u, variant="xfer", depth=2, emitidx=False) for u in U] + [dict(universe="U4", variant="xfer", depth=4, emitidx=False)] + \
+                [dict(universe="U5", variant="xfer_all", depth=3, emitidx=False), dict(universe="U6", variant="xfer_all", depth=8, emitidx=False, walks=500)] + \
                 [dict(universe=u, variant="xfer", depth=6, simulate=25, emitidx=False, fan_keep=0.15) for u in U]
         modes, hs = ("compiled",), (0, 1)
     else:
         plans = [dict(universe=u, variant="xfer", depth=2, emitidx=False) for u in U] + [dict(universe="U4", variant="xfer", depth=5, emitidx=False)] + \
+                [dict(universe="U5", variant="xfer_all", depth=4, emitidx=False), dict(universe="U6", variant="xfer_all", depth=12, emitidx=False, walks=5000)] + \
                 [dict(universe=u, variant="xfer", depth=10, simulate=100, emitidx=False, fan_keep=0.05) for u in U]
         modes, hs = ("compiled", "pure"), (0, 1, 2, 3)
     return me.run("C13", "translation_validation",
